@@ -182,6 +182,11 @@ def r3(R, repo):
       written.add(cs(n.slice))
   read = {cs(n.slice) for n in astu.body_walk(un.node) if isinstance(n, ast.Subscript) and isinstance(n.ctx, ast.Load) and cs(n.slice)}
   tested = {cs(n.left) for n in astu.body_walk(un.node) if isinstance(n, ast.Compare) and cs(n.left)}
+  # the marker test may live in a small predicate the reader calls (`_is_chunked(data)`)
+  for x_ in astu.func_calls(un):
+    g_ = repo.resolve_call(mod, x_, un)
+    if isinstance(g_, Func) and g_.mod is mod and g_ is not un:
+      tested |= {cs(n.left) for n in astu.body_walk(g_.node) if isinstance(n, ast.Compare) and cs(n.left)}
   R.judge(len(written) >= 2 and len(read) >= 1, written == read | tested and MARK in written, key_of(mod.rel, 'chunk dict keys writer == reader'), ch,
           '_chunk writes keys %s, _unchunk reads %s and tests %s' % (sorted(written), sorted(read), sorted(tested)))
   ul = mod.func('_unchunk_array_leaves_in_place')
